@@ -78,6 +78,11 @@ def directed_cases(seed: int, tier: str) -> typing.List[dict]:
             {"op": "generate", "opts": {"no_overwrite": True}},
             {"op": "generate", "opts": {}},
         ],
+        "extprog-rename": [
+            {"op": "generate", "opts": {"pp_prog": "rename", "file_mode": 0o444}},
+            {"op": "generate", "opts": {"pp_prog": "rename", "file_mode": 0o640}},
+            {"op": "generate", "opts": {"pp_prog": True, "file_mode": 0o444}},
+        ],
         "extprog-fail-then-regen": [
             {"op": "generate", "opts": {"pp_prog": True}, "fault_pick": ["extprog_fail"]},
             {"op": "generate", "opts": {"pp_prog": True}},
@@ -140,8 +145,8 @@ def _vary_opts(r: Rng, base: dict, tier: str) -> dict:
         o["pp_trim"] = True
     if r.chance(1, 5):
         o["pp_max_empty"] = r.choice([0, 1, 2])
-    if r.chance(1, 5):
-        o["pp_prog"] = True
+    if r.chance(1, 4):
+        o["pp_prog"] = r.choice([True, "rename"])  # formatter edits in place / replaces the file by temp + rename
     if r.chance(1, 8):
         o["ns_types"] = True
     if r.chance(1, 10) and lang in ("c", "cpp"):
@@ -264,6 +269,14 @@ def run_case(case: dict, ctx: dict) -> dict:
             evaluations += 1
             if not ref["ok"]:
                 bump("ops", "generate-skipped-reference-fails")
+                if opts.get("pp_prog"):
+                    # documented: the program runs "after each file is generated but before the file is set to
+                    # read-only". The (well-behaved) formatter must be able to edit a freshly generated file: if the
+                    # same run without it succeeds in the pristine directory, the failure is the generator's.
+                    ref2 = nnvg.reference_run(world, {k: v for k, v in opts.items() if k != "pp_prog"}, ref_cache, **plan)
+                    evaluations += 1
+                    if ref2["ok"]:
+                        violation("external-program-cannot-edit-freshly-generated-file:%s" % ref["res"]["status"], {"argv": world.argv(opts)[1:], "exc": ref["res"].get("exc_msg", "")[:300]})
                 continue
             last_ref_files = sorted(ref["files"])
             fault = op.get("fault")
